@@ -5,8 +5,11 @@ import nauyaca.protocol.request  # noqa: F401
 import nauyaca.security.tofu as tofu
 from nauyaca.security.tofu import TOFUDatabase
 
-from vf import Ob, V, pick
-from vf.modelsql import DB, Crash, Ctl, FakeDatetime, FakeSqlite
+import sqlite3 as _sqlite3
+import tomllib as _tomllib
+
+from vf import Ob, V, bind, pick, release
+from vf.modelsql import DB, Crash, Ctl, FakeDatetime, FakeSqlite, install_clock
 
 FP = ["sha256:" + "a" * 64, "sha256:" + "b" * 64]
 H = ["a_b.example", "a-b.example"]        # look-alikes: "_" is a wildcard in SQL LIKE, "-" a literal
@@ -127,8 +130,8 @@ def _mk(kinds):
         if k:
             db.rows[key] = dict(hostname=key[0], port=key[1], fingerprint=FP[k - 1], first_seen="t-old", last_seen="t-old")
     ctl = Ctl()
-    tofu.sqlite3 = _RealSqlite(db, ctl) if real else FakeSqlite(db, ctl)
-    tofu.datetime = FakeDatetime
+    bind(tofu, _sqlite3, _RealSqlite(db, ctl) if real else FakeSqlite(db, ctl))
+    install_clock(tofu)
     tofu.get_certificate_fingerprint = lambda cert: cert      # certificates are represented by their fingerprint here
     import pathlib
     t = TOFUDatabase(pathlib.Path("model.db"))     # real constructor: its schema statement goes to the back end
@@ -191,7 +194,7 @@ def _do(t, op):
     elif op == 4:
         t.clear()
     else:
-        tofu.tomllib = _FakeToml(FILE)
+        bind(tofu, _tomllib, _FakeToml(FILE))
         tofu.open = lambda *a, **k: io.BytesIO(b"")
         t.import_toml(_FakePath(), merge=(op == 5))
 
@@ -275,7 +278,7 @@ def _import_fault(kinds, merge, cb, fault_at):
     for i, k in enumerate(kinds):
         entries.append(_entry(k, i, entries[0] if entries else {"hostname": "n0.example"}))
     data = {"hosts": {"e%d" % i: e for i, e in enumerate(entries)}}
-    tofu.tomllib = _FakeToml(data)
+    bind(tofu, _tomllib, _FakeToml(data))
     tofu.open = lambda *a, **k: io.BytesIO(b"")
 
     def on_conflict(h, p, old, new):
@@ -341,15 +344,14 @@ def roundtrip(a: int, b: int, two: bool, pi: int, fpk: int) -> bool:
     want = db.pins()
     sink = _Sink()
     tofu.open = lambda *a_, **k_: sink
-    import tomllib as _real_tomllib
-    tofu.tomllib = _real_tomllib
+    release(tofu, _tomllib)
     n = t.export_toml(_FakePath())
     if n != 2:
         return V(False)
     text = sink.getvalue()
     # import into an empty store
     t2, db2, ctl2 = _mk([0, 0, 0])
-    tofu.tomllib = _real_tomllib
+    release(tofu, _tomllib)
     tofu.open = lambda *a_, **k_: io.BytesIO(text)
     t2.import_toml(_FakePath(), merge=True)
     return V(db2.pins() == want)
